@@ -32,6 +32,12 @@ Bool2 == {Bin(o, A, Bin("+", One, R)) : o \in RelOps} \cup {Bin(o, Bin("*", A, T
          \* relational operators do not associate: a comparison that is an operand of a comparison keeps its parentheses
          \cup {Bin(o1, Rel(o2), Rel("<")) : o1 \in {"=", "<>"}, o2 \in {"=", ">="}} \cup {Bin("=", Rel("<"), Lit("id", "TRUE")), Bin("=", Lit("id", "TRUE"), Rel("<"))}
          \cup {Un("NOT", Un("NOT", Rel("<")))}
+         \* QUERY (alone, nested, as an operand), and qualifiers: attribute of SELF, group qualification, index
+         \cup {Bin(">", Call("SIZEOF", <<Query("x", Agg(<<One, Two>>), Bin(">", Lit("id", "x"), A))>>), Lit("int", "0")),
+               Bin("=", Call("SIZEOF", <<Query("x", Lit("id", "a9"), Bin(">", Call("SIZEOF", <<Query("y", Lit("id", "a9"), Bin("=", Lit("id", "y"), Lit("id", "x")))>>), One))>>), Lit("int", "0")),
+               Bin(">", Dot(Lit("id", "SELF"), "a1"), Lit("int", "0")),
+               Bin(">", Dot(Group(Lit("id", "SELF"), "host"), "a1"), One), Bin("=", Index(Lit("id", "a9"), Bin("+", One, One)), Two),
+               Bin("IN", Index(Lit("id", "a9"), One), Agg(<<Index(Lit("id", "a9"), Two)>>))}
          \cup {Bin("IN", A, Agg(<<One, Two, Bin("+", One, Two)>>)), Bin("IN", A, Agg(<<Rep(One, Two), Two>>)), Bin("IN", A, Agg(<<One, One, Two>>)),
                \* a repetition count need not be a literal; and the literals 0 and 1 used as a count elsewhere stay ordinary elements here
                Bin("IN", A, Agg(<<Rep(One, A)>>)), Bin("IN", A, Agg(<<Rep(Two, Bin("+", A, One)), One>>)),
